@@ -48,7 +48,8 @@ def run_item(prop, item, seed, make_monitor, max_len=60, styles=None, after_last
             if dp and counter["i"] % 3 == 2:
                 # deep start (every third case): the number of scripted steps comes from the drawn plan
                 lo, hi = dp["steps"]
-                plan = dict(plan, prefix={"policy": dp["policy"], "steps": lo + plan["steps"][0][1] % (hi - lo + 1)})
+                plan = dict(plan, prefix={"policy": dp["policy"], "steps": lo + plan["steps"][0][1] % (hi - lo + 1),
+                                          "salt": int(plan["u"][0]) if plan.get("u") else 0})
                 ctx.count("deep_starts")
             counter["i"] += 1
             rec = episodes.Recorder(ctx, b, key)
